@@ -52,7 +52,15 @@ fn gen(rng: &mut Rng) -> Program {
         })
         .collect();
     let maxlat = (timeout * 1000 / 4).min(200_000);
-    let latency_us = if rng.chance(1, 2) { (0, 0) } else { (rng.range(0, 2_000), rng.range(2_000, maxlat.max(2_001))) };
+    let latency_us = if rng.chance(1, 2) {
+        (0, 0)
+    } else {
+        let hi = rng.range(2_000, maxlat.max(2_001));
+        // a third of these: every message is slow (a narrow band below the bound), not only the unlucky ones
+        let hi = if rng.chance(1, 3) { maxlat.max(2_001) - rng.below(maxlat / 8 + 1) } else { hi };
+        let lo = if rng.chance(1, 3) { hi * 3 / 4 } else { rng.range(0, 2_000) };
+        (lo, hi)
+    };
     let nt = rng.range(0, 3) as usize;
     let mut triggers = Vec::new();
     for _ in 0..nt {
@@ -302,7 +310,7 @@ impl Property for C07 {
         vec![("elections", 1)]
     }
     fn budget(&self) -> (u64, u64) {
-        (4_000, 150_000)
+        (8_000, 150_000)
     }
     fn rule(&self) -> &'static str {
         "clusters of 2-3 real nodes (real start_db, join, election, set-primary traffic over the simulated TCP with one thread per connection) booted 1 ms - 2.5 s apart, link latency 0 or up to min(timeout/4, 200 ms), election timeout per worker in {400,1000,2000} ms, followed by 0-3 triggers of {debug force-election on any node, two at once, kill of the primary, kill of a secondary, restart of a dead node}; timers fire only when no task can run (messages are faster than the timeout). After start-up and after every trigger the cluster must become quiet within 6 x (timeout + 1.1 s) with exactly one primary = the live node with the smallest process id, all others secondary, every member table naming that primary. The violation shape names the failing trigger, the cluster size, the boot/latency class and the triggers applied earlier in the (minimised) history. Non-trivial: at least one election beyond a single-node start-up was judged. distinct = distinct (program, task-switch sequence)."
